@@ -18,6 +18,8 @@ RULE = ("Generated lifecycles (op programs): construct a state of one of the thr
         "advances, the mixed state's phase-network auxiliary bias is unchanged (exactly 0 from sizes) after every optimizer step "
         "and the corresponding gradient slices are exactly 0. Non-trivial = a module-constructed complex/density state followed by "
         "an in-place mutation, or a density state trained >= 2 steps with a non-SGD optimizer.")
+RULE_EXT = ('Extended as built: poison_reinit (NaN written then reinitialise), numpy int64/int32 sizes, n up to 9, gpu argument default / True on a CPU-only host, divergence-guarded training (excluded and counted).')
+RULE = RULE + " " + RULE_EXT
 ASSUMPTIONS = ["CPU only (gpu=False)", "user modules are BinaryRBM / PurificationRBM instances as documented"]
 
 OPTS = ["sgd", "sgd_mom_wd", "adam", "rmsprop", "adadelta"]
